@@ -156,6 +156,9 @@ type knode struct {
 }
 
 type kworld struct {
+	snaps   bool
+	rotate  int
+	slash   bool
 	dir     string
 	retries int
 	repin   bool
@@ -285,11 +288,18 @@ func (w *kworld) startNode(n *knode, staging bool) error {
 	rc := &raft.Config{}
 	rc.Default()
 	rc.DataFolder = filepath.Join(n.dir, "raft")
+	if w.slash {
+		rc.DataFolder += "/"
+	}
 	rc.WaitForLeaderTimeout = 20 * time.Second
 	rc.NetworkTimeout = 10 * time.Second
 	rc.CommitRetries = w.retries
 	rc.CommitRetryDelay = 50 * time.Millisecond
-	rc.BackupsRotate = 2
+	rc.BackupsRotate = w.rotate
+	if w.snaps {
+		rc.RaftConfig.SnapshotInterval = 300 * time.Millisecond
+		rc.RaftConfig.SnapshotThreshold = 1
+	}
 	rc.RaftConfig.HeartbeatTimeout = 700 * time.Millisecond
 	rc.RaftConfig.ElectionTimeout = 1000 * time.Millisecond
 	rc.RaftConfig.LeaderLeaseTimeout = 500 * time.Millisecond
@@ -478,7 +488,7 @@ func (w *kworld) observe(l *knode) (string, bool) {
 		default:
 		}
 		gone := "1"
-		if _, e := os.Stat(filepath.Join(n.raftCfg.GetDataFolder(), "raft.db")); e == nil {
+		if !dataGone(filepath.Join(n.dir, "raft")) {
 			gone = "0"
 		}
 		parts = append(parts, fmt.Sprintf("x%d=%s%s", n.idx, done, gone))
@@ -546,6 +556,18 @@ func (w *kworld) exec(op string) (string, bool) {
 			return "", false
 		}
 		return fmt.Sprintf("%s@%s@%s@ok@%s", f[0], f[1], f[2], snap), true
+	case "snap":
+		if len(f) < 2 {
+			return "", true
+		}
+		j := w.knode(f[1])
+		if j == nil || !j.up {
+			return "", true
+		}
+		if !waitSnapshot(filepath.Join(j.dir, "raft"), 20*time.Second) {
+			return "", false
+		}
+		return "snap@" + f[1], true
 	case "prm":
 		if len(f) < 3 {
 			return "", true
@@ -671,8 +693,16 @@ func runClusterScript(out *common.Out, mu *sync.Mutex, scratch, tag string, s cs
 	if repin {
 		rp = 1
 	}
-	head := fmt.Sprintf("C17 k r=%d rp=%d init=0", s.retries, rp)
+	head := fmt.Sprintf("C17 k r=%d rp=%d init=0 %s", s.retries, rp, s.tail())
 	w, err := newKWorld(filepath.Join(scratch, tag), s.retries, repin)
+	if w != nil {
+		w.rotate, w.slash = s.rot(), s.slash
+		for _, op := range s.ops {
+			if strings.HasPrefix(op, "snap@") {
+				w.snaps = true
+			}
+		}
+	}
 	if err != nil {
 		emit("# inconclusive setup %v", err)
 		return
@@ -737,6 +767,24 @@ var clusterPinShapes = []string{
 func genClusterScript(r *common.Rng, tier string) (cscript, bool) {
 	s := cscript{retries: []int{1, 2, 1, 0}[r.Intn(4)], init: []int{0}}
 	repin := r.Chance(3, 4)
+	s.rotate = 1 + r.Intn(3)
+	if r.Chance(1, 8) {
+		// the same peer joins and is removed more often than backups_rotate (snapshots forced)
+		s.rotate = 1 + r.Intn(2)
+		s.slash = r.Chance(1, 3)
+		for k := 0; k < s.rotate+2; k++ {
+			s.ops = append(s.ops, "join@1@0", fmt.Sprintf("pin@0@%s", fmt.Sprintf(clusterPinShapes[0], r.Intn(5))), "snap@1")
+			switch r.Intn(3) {
+			case 0:
+				s.ops = append(s.ops, "prm@1@1")
+			case 1:
+				s.ops = append(s.ops, "leave@1")
+			default:
+				s.ops = append(s.ops, "prm@0@1")
+			}
+		}
+		return s, repin
+	}
 	members := map[int]bool{0: true}
 	hasData := map[int]bool{0: true}
 	pick := func() int {
